@@ -91,6 +91,14 @@ def run(ck):
                 ops.append((["dec", str(T), key.hex(), wv.hexs(rnd_bytes(r, r.choice([0, 7, 30, 74, 100])))], "api-dec-garbage"))
             elif k == 8:
                 ops.append((["ver", str(T), key.hex(), "c3a5c3a5c3a5c3a5" + rnd_bytes(r, 80).hex()], "api-ver-bad-tag"))
+            elif k == 11 and h in valid and h % 2 == 0:
+                # the output stops taking data part-way (device full): the operation returns; whatever it leaves behind in the
+                # process must not change later operations
+                wf = r.choice([0, 1, CH - 1, CH, CH + 5])
+                ops.append((["decf", str(pre_meta[h][0]), pre_meta[h][1].hex(), valid[h], str(1 << 60), str(wf)] + (["nobuf"] if r.random() < 0.5 else []), "api-dec-output-full"))
+            elif k == 11:
+                wf = r.choice([0, 10, 48 + 20 * T, 48 + 20 * T + CH, 48 + 20 * T + CH + 7])
+                ops.append((["encf", str(cm), str(hm), str(T), key.hex(), rnd_seed(r).hex(), wv.hexs(rnd_bytes(r, CH * r.randrange(1, 4) + 3)), str(1 << 60), str(wf)] + (["nobuf"] if r.random() < 0.5 else []), "api-enc-output-full"))
             elif k in (12, 13) and h in valid:
                 ops.append((["dec", str(pre_meta[h][0]), pre_meta[h][1].hex(), valid[h]], "api-dec-valid-multichunk"))
             elif k == 14 and h in valid:
